@@ -24,6 +24,10 @@ import SonicSpec.Proofs.MemScan
 import SonicSpec.Proofs.MemCt
 import SonicSpec.Proofs.MemApi
 import SonicSpec.Proofs.MemNum2
+import SonicSpec.Proofs.MemStrQuote
+import SonicSpec.Proofs.MemStrHtml
+import SonicSpec.Proofs.MemStrUnq
+import SonicSpec.Proofs.MemStrUtf8
 namespace SonicSpec.Props.C13
 open SonicSpec SonicSpec.Mem
 set_option linter.unusedSimpArgs false
@@ -227,5 +231,74 @@ example : (advStr 0 [2] (ofList [97, 92, 34, 98, 34]) 5 0).map StrRes.pos = some
 example : (ctScalarScan 91 93).run (ofList [91, 93, 34, 93, 34, 93]) 6 [4] ⟨false, false, 0, 0⟩ 0 = some (some 6) := by
   simp [ctScalarScan, ctScalar, Scan.run, scalarLoop, loadW, ofList, ctBlkO, ctBlk, ctStepO, ctStep, escMask,
     prefixXor, braceWalk]
+
+/-! ### the string routines: quote, unquote, html_escape, UTF-8 validation (Model/MemStr.lean)
+
+    Block-wise over a partial memory, as the C writes them (block searches `memcchr_quote` / `memcchr_html_quote`
+    with the output budget and the `-(consumed)-1` restart protocol, `memcchr_p32`, the unchecked fast path of
+    quote, the Go grow-and-retry loops), for EVERY list of block widths and EVERY sequence of output budgets, on
+    a fully mapped input they return exactly the proved scalar specifications of core B (Props/C20.lean):
+    `Str.quoteBody`, `Str.unquote`, `Str.htmlEscape`, `Str.validate`. -/
+
+/-- `encoder.Quote` body / the `,string` body: any widths (`w`), any growth of the output buffer (`rooms`) -/
+theorem quote_width_irrelevant (w : StrWidths) (rooms : List Nat) (m : Mem) (base : Nat) (s : Bytes)
+    (h : Holds (view m base) s) :
+    quoteGo w Str.quoteByte (view m base) s.length rooms 0 [] = some (Str.quoteBody s) ∧
+    quoteGo w Str.quoteByteD (view m base) s.length rooms 0 [] = some (Str.quoteBodyD s) := by
+  constructor
+  · rw [quoteGo_spec w Str.quoteByte (fun c hc => (quoteSpecial_tabs c hc).1) h rooms 0 [] (Nat.zero_le _)]
+    rfl
+  · rw [quoteGo_spec w Str.quoteByteD (fun c hc => (quoteSpecial_tabs c hc).2) h rooms 0 [] (Nat.zero_le _)]
+    rfl
+
+theorem quote_avx2_eq_sse (rooms₁ rooms₂ : List Nat) (m : Mem) (base : Nat) (s : Bytes) (h : Holds (view m base) s) :
+    quoteGo StrWidths.avx2 Str.quoteByte (view m base) s.length rooms₁ 0 [] =
+    quoteGo StrWidths.sse Str.quoteByte (view m base) s.length rooms₂ 0 [] := by
+  rw [(quote_width_irrelevant _ rooms₁ m base s h).1, (quote_width_irrelevant _ rooms₂ m base s h).1]
+
+/-- one native call of quote, as `Str.quoteCall` is specified (C20 `quoteLoop_any_capacity` rests on exactly this):
+    what was written is the image of what was consumed, `≥ 0` means everything was consumed -/
+theorem quoteNative_sound (w : StrWidths) (m : Mem) (base : Nat) (s : Bytes) (p room : Nat)
+    (h : Holds (view m base) s) (hp : p ≤ s.length) :
+    ∃ r, quoteNative w Str.quoteByte (view m base) s.length p room = some r ∧ r.consumed ≤ s.length ∧
+      r.out ++ Str.quoteBody (s.drop r.consumed) = Str.quoteBody (s.drop p) ∧ (r.done = true → r.consumed = s.length) := by
+  obtain ⟨r, hr, h1, h2, h3, h4, _⟩ :=
+    quoteNative_spec w Str.quoteByte (fun c hc => (quoteSpecial_tabs c hc).1) h p room hp
+  refine ⟨r, hr, h2, ?_, h4⟩
+  rw [h3]
+  show _ ++ (s.drop r.consumed).flatMap Str.quoteByte = (s.drop p).flatMap Str.quoteByte
+  rw [drop_eq_slice_append s p r.consumed h1, List.flatMap_append]
+
+/-- `unquote` (all four flag combinations) -/
+theorem unquote_width_irrelevant (w : StrWidths) (unirep dbl : Bool) (m : Mem) (base : Nat) (s : Bytes)
+    (h : Holds (view m base) s) :
+    unquoteNative w unirep dbl (view m base) s.length = some (Str.unquote unirep dbl s) :=
+  unquoteNative_spec w unirep dbl h
+
+/-- `encoder.HTMLEscape(dst, src)`: any widths, any growth of the destination -/
+theorem htmlEscape_width_irrelevant (w : StrWidths) (rooms : List Nat) (dst : Bytes) (m : Mem) (base : Nat) (s : Bytes)
+    (h : Holds (view m base) s) :
+    htmlGo w (view m base) s.length rooms 0 dst = some (dst ++ Str.htmlEscape s) := by
+  rw [htmlGo_spec w h rooms 0 dst (Nat.zero_le _)]
+  rfl
+
+/-- UTF-8 validation, SSE build (scalar validator only): full statement -/
+theorem utf8_sse_eq_validate (m : Mem) (base : Nat) (s : Bytes) (h : Holds (view m base) s) :
+    utf8Fast StrWidths.sse (view m base) s.length = some (Str.validate s) :=
+  utf8Fast_spec StrWidths.sse (Or.inl rfl) h
+
+/-- UTF-8 validation, any build: PARTIAL - under `VecSound` (the vector validator's "valid" is never wrong; its
+    lookup tables are transcribed and executed, not verified).  The vector verdict itself only matters when it says
+    "valid": otherwise the scalar validator decides (validate_utf8_fast.c). -/
+theorem utf8_width_irrelevant_partial (w : StrWidths) (hs : w.utf8 = [] ∨ VecSound w.utf8) (m : Mem) (base : Nat)
+    (s : Bytes) (h : Holds (view m base) s) :
+    utf8Fast w (view m base) s.length = some (Str.validate s) :=
+  utf8Fast_spec w hs h
+
+/-- non-vacuity: `a"b` quoted with 2-byte blocks and a 3-byte first budget (second call: unchecked path) -/
+example : quoteGo ⟨[2], [2], []⟩ Str.quoteByte (ofList [97, 34, 98]) 3 [3] 0 [] = some [97, 92, 34, 98] := by
+  have h : Holds (ofList [97, 34, 98]) [97, 34, 98] := fun i hi => rfl
+  have := quoteGo_spec ⟨[2], [2], []⟩ Str.quoteByte (fun c hc => (quoteSpecial_tabs c hc).1) h [3] 0 [] (Nat.zero_le _)
+  exact this.trans (by decide)
 
 end SonicSpec.Props.C13
